@@ -847,6 +847,8 @@ class Compiler:
         def chain(i, acc):
             if i == len(e.elts):
                 return k(("list", acc))
+            if isinstance(e.elts[i], ast.Starred):
+                return self.expr(e.elts[i].value, ctx, lambda r: chain(i + 1, acc + (list(r[1]) if r[0] in ("list", "tuple") else [])))
             return self.expr(e.elts[i], ctx, lambda r: chain(i + 1, acc + [r]))
         return chain(0, [])
 
@@ -864,6 +866,19 @@ class Compiler:
                                           lambda r: k(("tuple", [("c", "maskof"), ("c", e.elt.attr), r[2]["mask"]])))
                 return self.expr(src, ctx, after_obj)
         raise Unsupported(f"list comprehension (line {e.lineno})")
+
+    def e_DictComp(self, e, ctx, k):
+        # `{p.a: p.b for p in list(X.values()) [if ...]}` as it occurs in log messages: one atomic read of the
+        # container (the per-element attribute reads are process-local); the value is an opaque text
+        if len(e.generators) == 1 and isinstance(e.generators[0].target, ast.Name):
+            src, snap = self.values_source(e.generators[0].iter)
+            if src is not None:
+                def after_obj(o):
+                    if o[0] != "o":
+                        raise Unsupported("comprehension over dynamic object")
+                    return self.prim_call(o[1], "__snapshot__", [], {}, ctx, lambda r: k(("c", "<text>")))
+                return self.expr(src, ctx, after_obj)
+        raise Unsupported(f"dict comprehension (line {e.lineno})")
 
     def reduce_over_values(self, fname, gen, ctx, k):
         """sum(...) / all(...) of a generator over `list(X.values())`."""
@@ -1014,6 +1029,8 @@ class Compiler:
                         return self.call_method(ObjRef(o[1]), e.func.attr, args, kwargs, ctx, k)
                     if o[0] == "c" and isinstance(o[1], str):
                         return k(("c", "<text>"))
+                    if o[0] == "list" and e.func.attr == "append":
+                        return k(("c", None))  # a local list that is only handed to an opaque/primitive call
                     if o[0] == "rec" and o[1].startswith("Ref:"):
                         return self.deref(o, ctx, lambda oo: self.call_method(ObjRef(oo[1]), e.func.attr, args, kwargs, ctx, k),
                                           "AttributeError")
